@@ -28,6 +28,17 @@ def with_prior_call(job, rnd):
         job['shape_seed'] = job['shape_seed'] - job['shape_seed'] % 3
 
 
+def with_prior_success(job, rnd):
+    # C10: a quarter of the runs follow an earlier call on the same task instances in which *everything succeeded* (the
+    # tasks that fail in the observed call do so because the Lab's context tells them to): nothing of that earlier success
+    # may stand in for a result that failed this time
+    if job['cfg']['fail'] and rnd.random() < 0.3:
+        n = job['cfg']['n']
+        job['prior'] = list(range(1, n + 1))
+        job['ctx_fail'] = True
+        job['shape_seed'] = job['shape_seed'] - job['shape_seed'] % 3
+
+
 def with_displays(job, rnd):
     # C11: "default and disabled progress/monitor displays" -- a third of the real runs keep tqdm and the task monitor on
     job['displays'] = rnd.random() < 0.34
@@ -97,7 +108,7 @@ SPECS = {
                                 reqs='roots', max_edges=2, must=True)]),
         title='at every resting point executing = min(max_workers, runnable allowed by the type limits)'),
     'C10': dict(
-        real_jobfn=with_displays,
+        jobfn=with_prior_success, real_jobfn=with_displays,
         invs=['A_C10_OnlyOwnFailures', 'A_C10_Continue', 'A_C10_NoValueForFailed', 'A_C10_CachedOk',
               'A_C10_FailFast'], props=[],
         fam=dict(quick=dict(n=3, ntypes=2, maxpars=(1, UNL), maxws=(1, 2), backends=('fork', 'spawn', 'serial'),
